@@ -347,7 +347,7 @@ pub fn check_case(c: &Case, rep: &mut Report) {
 pub fn run(cfg: &Cfg) -> Report {
     let seed = cfg.seed;
     let mut total = Report::new();
-    let plan: Vec<(u64, u64)> = vec![(0, cfg.n(6_000, 80_000)), (1, cfg.n(600, 6_000)), (2, if cfg.quick() { 300 } else { 64535 })];
+    let plan: Vec<(u64, u64)> = vec![(0, cfg.n(6_000, 1_500_000)), (1, cfg.n(600, 150_000)), (2, if cfg.quick() { 300 } else { 64535 })];
     for (class, n) in plan {
         if !cfg.wants(class) {
             continue;
